@@ -150,6 +150,12 @@ def check_sf(ctx, case):
     else:
         sf = must(case, '%s.%s(%s)' % (cipher, name, sorted(kwargs) + sorted(tagkw)), klass, **kwargs, **tagkw)
     full_sf = klass(**tagkw)
+    if case.get('report_first'):
+        # printing / formatting an object is read-only
+        g_before = None if guesses is None else np.array(list(guesses) if isinstance(guesses, range) else guesses, copy=True)
+        str(sf), repr(sf)
+        if g_before is not None and not isinstance(guesses, range) and not np.array_equal(np.asarray(guesses), g_before):
+            raise Violation('%s %s: str() of the selection function changed the guesses array given by the caller' % (cipher, name), case)
     arr = data.astype(case['dtype'])
     meta = {data_tag: arr}
     for extra in case.get('extra_meta') or []:
@@ -198,6 +204,9 @@ def check_sf(ctx, case):
     for extra in case.get('extra_meta') or []:
         if extra not in kmeta and extra in ('key', 'data', 'foo'):
             kmeta[extra] = np.roll(key, 1) ^ 0x55
+    if case.get('other_key_first'):
+        # the same object is first asked about another master key (another device of the campaign)
+        must(case, 'compute_expected_key (another key, asked first)', sf.compute_expected_key, **dict(kmeta, **{key_tag: 255 - np.array(key, copy=True)}))
     kbuf = np.array(key, copy=True)
     kmeta[key_tag] = kbuf
     ek = must(case, 'compute_expected_key', sf.compute_expected_key, **kmeta)
@@ -221,7 +230,7 @@ def check_sf(ctx, case):
     nontrivial = words is not None or guesses is not None or (cipher == 'aes' and len(key) != 16)
     ctx.case(case, nontrivial, ['%s.%s' % (cipher, name), 'words:' + type(words).__name__, 'guesses:' + ('default' if guesses is None else type(guesses).__name__),
                                 'keysize:%d' % len(key)] + (['traces==guesses'] if n == len(g_list) else []) + (['custom_tags'] if tagkw else [])
-             + (['decoy_metadata:' + '+'.join(sorted(case.get('extra_meta')))] if case.get('extra_meta') else []) + (['same_array_reused'] if case.get('prime') else []) + (['other_expected_key_asked_before'] if case.get('asked_before') else []) + (['words_attribute_set_after_construction'] if case.get('words_late') and words is not None else []))
+             + (['decoy_metadata:' + '+'.join(sorted(case.get('extra_meta')))] if case.get('extra_meta') else []) + (['same_array_reused'] if case.get('prime') else []) + (['other_expected_key_asked_before'] if case.get('asked_before') else []) + (['str_before_use'] if case.get('report_first') else []) + (['asked_about_another_key_first'] if case.get('other_key_first') else []) + (['words_attribute_set_after_construction'] if case.get('words_late') and words is not None else []))
 
 
 @st.composite
@@ -262,7 +271,7 @@ def sf_cases(draw, cipher, name):
             'dtype': draw(st.sampled_from(['uint8', 'uint8', 'int16', 'int64'])), 'all_guesses': draw(st.integers(0, 9)) == 0,
             'data_tag': draw(st.sampled_from([None, None, 'pt', 'data', 'input'])), 'key_tag': draw(st.sampled_from([None, None, 'k', 'masterkey'])),
             'extra_meta': draw(st.lists(st.sampled_from(['data', 'key', 'plaintext', 'ciphertext', 'foo']), max_size=3, unique=True)), 'prime': draw(st.booleans()),
-            'words_late': draw(st.integers(0, 3)) == 0,
+            'words_late': draw(st.integers(0, 3)) == 0, 'report_first': draw(st.booleans()), 'other_key_first': draw(st.booleans()),
             'asked_before': draw(st.sampled_from(['', ''] + [c for c in (AES_CLASSES if cipher == 'aes' else DES_CLASSES)]))}
 
 
